@@ -87,7 +87,7 @@ func init() {
 		cmdReq := c.Deviate(2) == 1
 		// 1: an INI file read before the parse supplies the parser's string option and a's string option;
 		// 2: the same file is read by a callback option's default, declared after the required options
-		iniSupply := c.Deviate(3)
+		iniSupply := c.Deviate(4) // 3: as 1, read in as-defaults mode
 		api := c.Bool()
 		layout, onB := 0, false
 		if lay >= 1 && lay <= 7 {
@@ -115,7 +115,7 @@ func init() {
 		}
 		c.Describe(func() interface{} {
 			return map[string]interface{}{"tree": describeTree(d.Top), "api_path": api, "argv": argv,
-				"ini_file_supplying_P2_and_A2": []string{"not read", "read before ParseArgs", "read by the default of a func(string) option declared last on the parser"}[iniSupply]}
+				"ini_file_supplying_P2_and_A2": []string{"not read", "read before ParseArgs", "read by the default of a func(string) option declared last on the parser", "read before ParseArgs in as-defaults mode"}[iniSupply]}
 		})
 		cfg := &ref.Config{D: d}
 		if iniSupply != 0 {
@@ -142,9 +142,11 @@ func init() {
 		if iniSupply != 0 {
 			var iniErr error
 			readIni := func() {
-				iniErr = flags.NewIniParser(b.Parser).Parse(strings.NewReader("[Application Options]\nP2 = v\n[a]\nA2 = v\n"))
+				ip := flags.NewIniParser(b.Parser)
+				ip.ParseAsDefaults = iniSupply == 3
+				iniErr = ip.Parse(strings.NewReader("[Application Options]\nP2 = v\n[a]\nA2 = v\n"))
 			}
-			if iniSupply == 1 {
+			if iniSupply == 1 || iniSupply == 3 {
 				readIni()
 			} else {
 				for _, o := range d.Top.Opts {
@@ -213,7 +215,7 @@ func init() {
 		DevBound:   func(bool) int { return 1 },
 		Rule: "tree parser -> a -> b, sibling c, 6 options; all 64 subsets marked required (spellings yes/true/1, the others unmarked or marked false/no/0) x positional layouts " +
 			"{none, 2 scalars struct-required, per-field required, rest required 2, 1-2, 0-1, optional, two scalars made required by setting Command.ArgsRequired in the program} on b or on the parser x {tags, API} x every sequence of <= 3 (quick) / <= 4 (thorough) units " +
-			"supplying options by short, long=, separate and cluster spellings, command words, plain words and the -- terminator (PassDoubleDash set; words after it still count for the positional constraints); one more deviation makes subcommands mandatory at both inner levels (a missing required option is still ErrRequired, not ErrCommandRequired); option types bool, string, func(), []bool; one more deviation has an INI file supply two of the options, read before the parse or by the default of a callback option declared after them; oracle = CLM missing set: ErrRequired iff something on the active chain is missing, " +
+			"supplying options by short, long=, separate and cluster spellings, command words, plain words and the -- terminator (PassDoubleDash set; words after it still count for the positional constraints); one more deviation makes subcommands mandatory at both inner levels (a missing required option is still ErrRequired, not ErrCommandRequired); option types bool, string, func(), []bool; one more deviation has an INI file supply two of the options, read before the parse (plain or as defaults) or by the default of a callback option declared after them; oracle = CLM missing set: ErrRequired iff something on the active chain is missing, " +
 			"message names every missing item and none that is supplied or belongs to an unselected command; nothing executed",
 		Assumptions:  []string{"required options carry no default/env here (whether a default supplies a required option is not settled by the statement)", "markers are long option names / positional names chosen so that none is a substring of another"},
 		RequiredHits: []string{"clean", "required-fault|options", "required-fault|positionals", "supplied-by-ini"},
